@@ -8,10 +8,14 @@ META.update({
     "id": "C12",
     "technique": "Coq proof (exact characterisation of poll_ready by structural induction; liveness invariant over future states "
                  "preserved by every Pending poll) + extracted-model vs real-combinator differential run with waker identities",
-    "level_text": "C12_ready_* / C12_waker hold for ALL service trees, readiness scripts (arbitrary answer lists) and wakers; "
-                  "C12_future_polls for every poll of the future of ANY tree and request (no fuel bound); C12_factory_polls for ALL factory "
-                  "trees. Tied to /repo/actix-service by the differential run: every leaf poll is logged with the identity of the waker "
-                  "it was given (fresh per top-level poll); leaves record polls after completion.",
+    "level_text": "C12_ready_conj / C12_ready_polls_all / C12_ready_state / C12_waker / C12_pending_has_cause / C12_ready_err hold for ALL "
+                  "service trees, ALL readiness scripts (arbitrary answer lists) and wakers (exact characterisation of one poll_ready: "
+                  "result = conjunction, every leaf polled once in order with the current waker unless an earlier leaf erred, first error "
+                  "mapped through the map_err closures above it); C12_future_polls for EVERY poll of the future of ANY tree and request "
+                  "(no panic, no poll after completion, current waker only, Pending only if the last inner poll answered Pending; any fuel); "
+                  "C12_factory_polls the same for ALL factory trees (is_none guards, Option::take, A/B/C state machines). "
+                  "Tied to /repo/actix-service by the differential run: every leaf poll is logged with the identity of the waker "
+                  "it was given (fresh per top-level poll, read back from the RawWaker data pointer); leaves record polls after completion.",
     "rule": "stream svc12: random service trees as in C11 with readiness-heavy op scripts (1..4 poll_ready, then calls); plus the small "
             "exhaustive family. Non-trivial = some poll_ready answers Pending or an error, or some call goes through a Pending poll. "
             "stream fac12: random factory trees (concurrent and sequential init futures, apply_cfg_factory readiness wait).",
